@@ -5,4 +5,10 @@ MCStates == <<"Inactive", "Joining", "Active", "Transferring">>
 MCScript == ("t1" :> << <<"T", "Inactive", "Joining">>, <<"T", "Joining", "Active">> >>
              @@ "t2" :> << <<"T", "Inactive", "Active">>, <<"S", "Transferring">> >>
              @@ "t3" :> << <<"T", "Inactive", "Joining">>, <<"T", "Active", "Transferring">> >>)
+\* a state is left and entered again (Active -> Transferring -> Active, the cycle of a membership lock) while other threads sit between the
+\* load and the compare-and-swap of their own transition out of it: the swap compares the whole word, so they fail
+MCStatesABA == <<"Active", "Transferring", "Leaving">>
+MCScriptABA == ("t1" :> << <<"T", "Active", "Leaving">> >>
+                @@ "t2" :> << <<"T", "Active", "Transferring">>, <<"T", "Transferring", "Active">> >>
+                @@ "t3" :> << <<"T", "Transferring", "Active">>, <<"T", "Active", "Transferring">> >>)
 ====
